@@ -183,7 +183,12 @@ func (j *jmessage) toJSON() ([]byte, error) {
 	case j.E != nil:
 		e, err := json.Marshal(j.E)
 		if err != nil {
-			return nil, err
+			// The error value cannot be encoded (its data is not valid JSON).
+			// Report that in its place, so that the peer still gets a reply.
+			e, err = json.Marshal(&Error{Code: InternalError, Message: "invalid error value: " + err.Error()})
+			if err != nil {
+				return nil, err
+			}
 		}
 		sb.WriteString(`,"error":`)
 		sb.Write(e)
